@@ -179,6 +179,8 @@ class CompMixin(Interp):
             return out
         n = len(st.pc)
         self.push_binders(st, src.binders)
+        ns_saved = st.ghost.get("__nosplit__", ())
+        st.ghost["__nosplit__"] = tuple(ns_saved) + tuple(b.get_id() for b in src.binders)
         try:
             st.pc.append(src.guard)
             self.bind_target(st, g.target, src.elem)
@@ -191,6 +193,7 @@ class CompMixin(Interp):
             return self._comp(st, gens[1:], body_fn, binders + list(src.binders), t_and(guard, src.guard, *conds), False, ss, kind)
         finally:
             self.pop_binders(st, len(src.binders))
+            st.ghost["__nosplit__"] = ns_saved
             del st.pc[n:]
 
     def comp_result(self, st, parts, kind):
